@@ -97,6 +97,12 @@ func (r *Run) opBadPut(op *Op) {
 					dec--
 				}
 				switch {
+				case !ok && len(payload) == dec && dec == len(body) && op.ChLie == "trunc":
+					// every payload chunk arrived intact; only the closing
+					// zero-length chunk is damaged: like a missing final
+					// chunk this is judged leniently
+					recv = payload
+					mustAccept = false
 				case !ok:
 					mustReject = "malformed aws-chunked framing"
 				case len(payload) != dec:
@@ -150,7 +156,7 @@ func (r *Run) opBadPut(op *Op) {
 				mustReject = "no such upload"
 			}
 		}
-		if len(body) == 0 || op.Part < 1 || op.Part > 10000 {
+		if len(body) == 0 || len(recv) == 0 || op.Part < 1 || op.Part > 10000 {
 			mustAccept = false
 			if op.Part < 1 || op.Part > 10000 {
 				mustReject = "invalid part number"
@@ -269,27 +275,27 @@ func decodeAwsChunked(w []byte) (payload []byte, ok bool, lenient bool) {
 			if len(w) == 0 {
 				return payload, true, true // ended without the final chunk
 			}
-			return nil, false, false
+			return payload, false, false
 		}
 		hdr := string(w[:i])
 		w = w[i+2:]
 		semi := strings.Index(hdr, ";chunk-signature=")
 		if semi < 0 {
-			return nil, false, false
+			return payload, false, false
 		}
 		if len(hdr)-semi-len(";chunk-signature=") != 64 {
-			return nil, false, false
+			return payload, false, false
 		}
 		n, err := strconv.ParseInt(hdr[:semi], 16, 32)
 		if err != nil || n < 0 {
-			return nil, false, false
+			return payload, false, false
 		}
-		if int(n)+2 > len(w) {
-			return nil, false, false
+		if int(n) > len(w) {
+			return nil, false, false // payload bytes are missing
 		}
 		payload = append(payload, w[:n]...)
-		if string(w[n:n+2]) != "\r\n" {
-			return nil, false, false
+		if int(n)+2 > len(w) || string(w[n:n+2]) != "\r\n" {
+			return payload, false, false // the chunk's trailing CRLF is damaged
 		}
 		w = w[n+2:]
 		if n == 0 {
